@@ -171,8 +171,29 @@ def check(case):
     return {'nontrivial': len(eq_classes) >= 2 and nonadj and eqni, 'labels': labels}
 
 
+def many_enum(tier):
+    for n in (258, 300, 520):
+        for inner in ('count', 'to_list'):
+            yield {'n': n, 'inner': inner}
+
+
+def check_many(case):
+    """Several hundred distinct keys in ONE group_by, a stateful operator inside: every group is created, fed and completed."""
+    n = case['n']
+    items = [(k, r) for r in range(2) for k in range(n)] + [(0, 2)]
+    inner = [rs.ops.map(lambda i: i[1]), rs.ops.count(reduce=True) if case['inner'] == 'count' else rs.data.to_list()]
+    r = drive.store(items, [rs.ops.group_by(lambda i: i[0], inner)])
+    H.require_clean(r, 'group_by with %d groups' % n, **case)
+    exp = [(3 if k == 0 else 2) if case['inner'] == 'count' else ([0, 1, 2] if k == 0 else [0, 1]) for k in range(n)]
+    if r.items != exp:
+        first = next((j for j, (a, b) in enumerate(zip(r.items, exp)) if a != b), min(len(r.items), len(exp)))
+        raise Violation('group_by over %d distinct keys: results differ' % n, results=len(r.items), first_difference_at=first, **case)
+    return {'nontrivial': True, 'labels': ['groups=%d' % n, 'inner:' + case['inner']]}
+
+
 def subs(tier):
     return [
+        Sub('many_groups', check_many, enum=many_enum, doc='258-520 distinct keys in one group_by with a stateful inner operator'),
         Sub('partition', check, gen=case_gen, examples={'quick': 3000, 'thorough': 200000},
             doc='group_by over equal-not-identical keys: head-tap partition + full output vs list-scan reference model'),
     ]
